@@ -99,6 +99,11 @@ func InstrDominates(a, b ssa.Instruction) bool {
 // reached instruction; returning false stops the exploration along that path
 // (the instruction is a barrier).
 func WalkForward(fn *ssa.Function, from ssa.Instruction, visit func(ssa.Instruction) bool) {
+	WalkForwardEdges(fn, from, visit, nil)
+}
+
+// WalkForwardEdges is WalkForward restricted to CFG edges accepted by edgeOK.
+func WalkForwardEdges(fn *ssa.Function, from ssa.Instruction, visit func(ssa.Instruction) bool, edgeOK func(from, to *ssa.BasicBlock) bool) {
 	if len(fn.Blocks) == 0 {
 		return
 	}
@@ -128,6 +133,9 @@ func WalkForward(fn *ssa.Function, from ssa.Instruction, visit func(ssa.Instruct
 			continue
 		}
 		for _, s := range it.b.Succs {
+			if edgeOK != nil && !edgeOK(it.b, s) {
+				continue
+			}
 			if !seen[s] {
 				seen[s] = true
 				work = append(work, item{s, 0})
